@@ -208,6 +208,24 @@ pub fn cases(seed: u64, tier: Tier) -> Cases {
     for s in ["Bearer abc", " a", "a ", "a=b", "a==", "====", "a\u{0}", "a\u{7f}", "aé=", "\u{ff1d}", "a\u{2028}", "AZaz09-._~+/=", "@", "[", "`", "{", ":", ",", "%41", "a\t"] {
         token_case(&mut cs, s);
     }
+    // one code point at a time, alone and inside a token: everything up to U+017F, then the rest of the Basic
+    // Multilingual Plane (quick: every 5th code point; code points whose low byte is an ASCII token character are the
+    // ones a byte-wise slip would confuse) and a few beyond it
+    let step = if tier == Tier::Quick { 5 } else { 1 };
+    let mut cp = 0u32;
+    while cp <= 0xFFFF {
+        if let Some(c) = char::from_u32(cp) {
+            token_case(&mut cs, &c.to_string());
+            token_case(&mut cs, &format!("a{}b", c));
+        }
+        cp += if cp < 0x180 { 1 } else { step };
+    }
+    for cp in [0x10041u32, 0x1F600, 0x1F641, 0x2F82D, 0xE0041, 0x10FFFF, 0x10FF2D] {
+        if let Some(c) = char::from_u32(cp) {
+            token_case(&mut cs, &c.to_string());
+            token_case(&mut cs, &format!("tok{}==", c));
+        }
+    }
     let n = if tier == Tier::Quick { 2000 } else { 40000 };
     let pool: Vec<char> = "abcxyzABCXYZ0123456789-._~+/=".chars().chain(" \n\t@é%:[]{}\"\\,;!".chars()).collect();
     for _ in 0..n {
@@ -284,4 +302,4 @@ pub fn cases(seed: u64, tier: Tier) -> Cases {
     cs
 }
 
-pub const RULE: &str = "tokens: all strings of length <= 4 (quick) / 5 (thorough) over the 14-character boundary alphabet {a z A 0 9 - _ . ~ + / = \\n é}, 20 hand-picked edge strings, seeded strings of length 1..40 with padding; each through from_str, new, from_plain, server JSON and client JSON deserialization, compared with each other, with the grammar ^[A-Za-z0-9\\-._~+/]+=*$ re-implemented in the harness, and with the Lean model. rids: all strings ri.<w>, |w| <= 6 / 7 over {a A 0 - _ .}; all strings of length <= 4 / 6 over {r i . a \\n R}; every single-character insertion/replacement/deletion of 5 valid rids; seeded component-wise strings; each through from_str, new, from_plain, server and client JSON, with as_str/Display/to_plain/JSON rendering and the four accessors compared to the grammar's split. from_components: all 4-tuples over 7 / 12 short components plus seeded ones. Non-trivial = longer than one character (tokens) / three characters (rids) or valid; distinct = distinct operation lines.";
+pub const RULE: &str = "tokens: all strings of length <= 4 (quick) / 5 (thorough) over the 14-character boundary alphabet {a z A 0 9 - _ . ~ + / = \\n é}, 20 hand-picked edge strings, every code point up to U+017F and every 5th (quick) / every (thorough) code point of the rest of the BMP alone and inside a token, seeded strings of length 1..40 with padding; each through from_str, new, from_plain, server JSON and client JSON deserialization, compared with each other, with the grammar ^[A-Za-z0-9\\-._~+/]+=*$ re-implemented in the harness, and with the Lean model. rids: all strings ri.<w>, |w| <= 6 / 7 over {a A 0 - _ .}; all strings of length <= 4 / 6 over {r i . a \\n R}; every single-character insertion/replacement/deletion of 5 valid rids; seeded component-wise strings; each through from_str, new, from_plain, server and client JSON, with as_str/Display/to_plain/JSON rendering and the four accessors compared to the grammar's split. from_components: all 4-tuples over 7 / 12 short components plus seeded ones. Non-trivial = longer than one character (tokens) / three characters (rids) or valid; distinct = distinct operation lines.";
